@@ -515,6 +515,23 @@ func main() {
 		for _, a := range shapeSessions() {
 			inputs = append(inputs, Input{Sess: a})
 		}
+		// the agent session ends with 0, 1, 2, 3 relayed connections still open (with and
+		// without unread bytes / an earlier service close): every service call returns and
+		// every connection sees its end (the final reads until EOF are added by the run)
+		for k := 0; k <= 3; k++ {
+			for variant := 0; variant < 2; variant++ {
+				var acts []Action
+				for i := 0; i < k; i++ {
+					seq := connSeq(i, 1+variant)
+					acts = append(acts, seq[:len(seq)-1]...) // no eof
+				}
+				if variant == 1 && k > 0 {
+					acts = append(acts, Action{A: "write", C: k - 1, P: litPay([]byte("bye"))}, Action{A: "close", C: 0})
+				}
+				acts = append(acts, Action{A: "disc"})
+				inputs = append(inputs, Input{Sess: acts})
+			}
+		}
 		for i := 0; i < nSess; i++ {
 			inputs = append(inputs, Input{Sess: genSession(r, false)})
 		}
@@ -553,6 +570,28 @@ func main() {
 				cases = append(cases, hx.Case{ID: id, Kind: "stress", Input: Input{Stress: 300, Stream: k + 1},
 					Obs:  map[string]interface{}{"sent_len": len(x.sent), "read_len": len(x.got)},
 					Coq:  fmt.Sprintf("CT (mkTCase %s %s %s)", hx.CoqN(uint64(id)), coqB(x.sent), coqB(x.got))})
+				id++
+			}
+			if !stressHung && crashes < 3 {
+				rounds := 3000
+				if o.Tier != "quick" {
+					rounds = 20000
+				}
+				done, stuck := wakeupRounds(e, r, rounds)
+				dist["stress:wakeup-rounds"] = done
+				c := hx.Case{ID: id, Kind: "stress-wakeup", Input: Input{Stress: 300, Stream: -1},
+					Obs: map[string]interface{}{"rounds_delivered": done, "stuck": stuck},
+					Coq: fmt.Sprintf("CT (mkTCase %s [1]%%N [1]%%N)", hx.CoqN(uint64(id)))}
+				if stuck {
+					c.Crash = fmt.Sprintf("handler-did-not-return: round %d: a Read waiting on a surfaced connection was not woken by the data message (byte not delivered within 20 s)", done)
+				}
+				cases = append(cases, c)
+				id++
+			}
+			if stressHung {
+				degraded = true
+				cases = append(cases, hx.Case{ID: id, Kind: "stress", Input: Input{Stress: 300},
+					Crash: "handler-did-not-return: in an unsynchronised session a service Read never returned after the eofs"})
 				id++
 			}
 			id--
